@@ -2,14 +2,16 @@
 import os, importlib
 import vlib
 
-TRANSLATORS = ["translate_methods", "translate_tableaus"]
+TRANSLATORS = ["translate_methods", "translate_tableaus", "translate_py"]
 
 def regenerate(prop=None):
     info = {}
     os.makedirs(os.path.join(vlib.COQ, "Gen"), exist_ok=True)
     for modname in TRANSLATORS:
         mod = importlib.import_module(modname)
-        for rel, text in mod.generate().items():
+        import inspect
+        gen = mod.generate(prop) if inspect.signature(mod.generate).parameters else mod.generate()
+        for rel, text in gen.items():
             changed = vlib.write_if_changed(os.path.join(vlib.COQ, rel), text)
             info[rel] = "changed" if changed else "same"
     return info
